@@ -122,7 +122,7 @@ impl Crypto for VerifCrypto {
     }
 
     fn generate_secret_key(&self) -> Result<Self::SecretKey<'_>, Error> {
-        unimplemented!()
+        Ok(VerifCrypto)
     }
 
     fn secret_key(
@@ -320,7 +320,8 @@ impl<
     }
 
     fn write_canon(&self, _key: &mut CryptoSensitive<KEY_LEN>) -> Result<(), Error> {
-        unimplemented!()
+        // oracle key material: whatever is in the buffer
+        Ok(())
     }
 }
 
